@@ -18,6 +18,7 @@
 -/
 import LtVerif.Proofs.CqRead
 import LtVerif.Proofs.CqLive
+import LtVerif.Proofs.CqFuel
 namespace LtVerif.C17
 open LtVerif LtVerif.Cq
 
@@ -185,6 +186,21 @@ theorem c17_retryable_fifo (base : Nat → Int) (s : Sys) (qi : Bool) (h : FInv 
     rw [r2 n] at this
     simp only [specStep, Op.qi, Prod.mk.injEq] at this
     exact this
+
+/-- The iteration bounds (`fuel`) the model gives to the loops of
+    chunkqueue_steal_with_tempfiles() (outer call and the call nested in
+    chunkqueue_to_tempfiles()) and chunkqueue_append_mem_to_tempfile() are never
+    reached, whatever the fault schedule and the queues: with `k` more turns the
+    loops return the same result.  (Every turn consumes a scripted write result,
+    a byte of `len` or a chunk of the source.)  So an error the model reports is
+    never an artefact of the bound — the C loops have none. -/
+theorem c17_fuel_sufficient (w : World) (dest src q : Cq) (len : Nat) (d : Bytes) (k : Nat) :
+    swLoop toTempfiles (swFuel w src len + k) w dest src len = stealWithTempfiles w dest src len ∧
+      swLoop toTempStub (swFuel w src len + k) w dest src len = swInner w dest src len ∧
+      mtLoop (w.wsched.length + 1 + k) w q d = mtLoop (w.wsched.length + 1) w q d :=
+  ⟨swLoop_fuel toTempfiles_calm _ k w dest src len (by unfold swFuel; omega),
+   swLoop_fuel (fun w _ => Calm.refl w) _ k w dest src len (by unfold swFuel; omega),
+   mtLoop_fuel _ k w q d (Nat.le_refl _)⟩
 
 /-- chunkqueue_steal(): the first min(n, |src|) bytes of src move to the tail
     of dest, in order and unmodified; nothing else changes. -/
